@@ -4,6 +4,7 @@ import (
 	"fmt"
 	"go/token"
 	"go/types"
+	"os"
 	"sort"
 	"strings"
 
@@ -12,17 +13,20 @@ import (
 )
 
 type Engine struct {
-	globalWritten map[*ssa.Global]bool
-	globalScanned map[*ssa.Package]bool
-	writeMemo   map[*ssa.Function]map[string]heapTypeInfo
-	prog        *ssa.Program
-	pkgs        []*packages.Package
-	pkgByPath   map[string]*packages.Package
-	ssaPkgs     map[string]*ssa.Package
-	contracts   *ContractDB
-	inlineAll   bool
-	checkGuards bool
-	fieldWritten map[string]map[int]bool
+	globalWritten  map[*ssa.Global]bool
+	globalScanned  map[*ssa.Package]bool
+	writeMemo      map[*ssa.Function]map[string]heapTypeInfo
+	writeMemoOther map[*ssa.Function]map[string]func(*World) string
+	writeMemoFresh map[*ssa.Function]map[string]func(*World) string
+	countMemo      map[*ssa.Function]map[string]bool
+	prog           *ssa.Program
+	pkgs           []*packages.Package
+	pkgByPath      map[string]*packages.Package
+	ssaPkgs        map[string]*ssa.Package
+	contracts      *ContractDB
+	inlineAll      bool
+	checkGuards    bool
+	fieldWritten   map[string]map[int]bool
 }
 
 func (e *Engine) pkgOf(fn *ssa.Function) *packages.Package {
@@ -354,14 +358,68 @@ func (e *Engine) inferredWrites(fn *ssa.Function) map[string]heapTypeInfo {
 			defer func() { recover() }()
 			fr.execFunction(f, st)
 		}()
+		others := map[string]func(*World) string{}
 		for h := range fr.oldHeapWrites {
 			if isContentHeap(h) {
 				out[h] = fr.w.heapTypes[h]
+				continue
+			}
+			if mk, ok := fr.w.heapMake[h]; ok {
+				others[h] = mk
+			} else if srt := fr.w.heapSorts[h]; plainSort(srt) {
+				// ghost heaps of plain sorts (Int, Bool and arrays of them)
+				name, sortText := h, srt
+				others[h] = func(o *World) string { return o.heap(name, sortText) }
 			}
 		}
+		if e.writeMemoOther == nil {
+			e.writeMemoOther = map[*ssa.Function]map[string]func(*World) string{}
+			e.writeMemoFresh = map[*ssa.Function]map[string]func(*World) string{}
+		}
+		e.writeMemoOther[fn] = others
+		// heaps written in objects the function allocates itself (its results may be such objects)
+		freshW := map[string]func(*World) string{}
+		for h := range fr.freshHeapWrites {
+			if mk, ok := fr.w.heapMake[h]; ok {
+				freshW[h] = mk
+			} else if srt := fr.w.heapSorts[h]; plainSort(srt) {
+				name, sortText := h, srt
+				freshW[h] = func(o *World) string { return o.heap(name, sortText) }
+			}
+		}
+		e.writeMemoFresh[fn] = freshW
+		// the ghost counters (calls of X, sends) the body advances
+		cnt := map[string]bool{}
+		for k := range fr.countersTouched {
+			cnt[k] = true
+		}
+		if e.countMemo == nil {
+			e.countMemo = map[*ssa.Function]map[string]bool{}
+		}
+		e.countMemo[fn] = cnt
 	}
 	e.writeMemo[fn] = out
 	return out
+}
+
+// plainSort: a sort built from Int, Bool, Real and Array only (the same text in every world).
+func plainSort(srt string) bool {
+	if srt == "" {
+		return false
+	}
+	for _, tok := range strings.FieldsFunc(srt, func(r rune) bool { return r == '(' || r == ')' || r == ' ' }) {
+		switch tok {
+		case "Array", "Int", "Bool", "Real":
+		default:
+			return false
+		}
+	}
+	return true
+}
+
+// chanGhostHeap: ghost state of channels, which no modifies clause names.
+func chanGhostHeap(h string) bool {
+	return h == "ChanSent" || h == "ChanRecvd" || h == "ChanClosed" || h == "ChanCap"
 }
 
 func isContentHeap(h string) bool {
@@ -461,13 +519,10 @@ func (fr *FuncRun) applyContract(f *Frame, st *State, fc *FuncContract, callee *
 		}
 	}
 	pre := st.clone()
+	preLines, preReach := len(fr.lines), st.reach
 	// objects the callee allocates lie between the allocation mark at the call and a new, later mark
 	callBase := fr.allocTop
-	if !fc.Extern && callee != nil {
-		nt := fr.fresh(sInt, "alloctop")
-		fr.emit(fmt.Sprintf("(assert (>= %s %s))", nt, callBase))
-		fr.allocTop = nt
-	}
+	fr.bumpAllocTop()
 	// the callee's ghost variables: their final values are whatever the callee's run produced
 	for _, g := range fc.Ghosts {
 		binds[g.Name] = TVal{Val: Val{T: fr.fresh(g.Sort, "cghost_"+g.Name), S: g.Sort}}
@@ -546,6 +601,25 @@ func (fr *FuncRun) applyContract(f *Frame, st *State, fc *FuncContract, callee *
 			}
 			fr.heapHavoc(st, h)
 		}
+		// what else the body (and what it calls) writes in objects that existed before the call: the channel ghost
+		// state always (no modifies clause names it), everything else when the contract has no modifies clause at all
+		// (a modifies clause is checked against the body and then is the frame)
+		others := fr.eng.writeMemoOther[callee]
+		var otherNames []string
+		for h := range others {
+			otherNames = append(otherNames, h)
+		}
+		sort.Strings(otherNames)
+		for _, h := range otherNames {
+			if h == "Held" || (fc.HasMod && !chanGhostHeap(h)) || os.Getenv("GOVC_TEST_NO_INFERRED_HAVOC") != "" {
+				continue
+			}
+			others[h](fr.w)
+			fr.heapHavoc(st, h)
+			if os.Getenv("GOVC_DEBUG_CALLS") != "" && fr.scout == 0 {
+				fmt.Fprintf(os.Stderr, "call %s: havoc %s (inferred write)\n", name, h)
+			}
+		}
 	}
 	// results
 	rv := fr.havocResults(st, sig.Results(), name)
@@ -557,8 +631,44 @@ func (fr *FuncRun) applyContract(f *Frame, st *State, fc *FuncContract, callee *
 	}
 	fr.resultBinds(sig, results, binds)
 	ctx = &EvalCtx{fr: fr, st: st, old: pre, pkg: pkg, binds: binds, freshBase: callBase}
+	// the callee's own ghost counters: calls(X) and sends() in its postcondition count what the callee did; the
+	// caller's counters advance by the same (unknown, non-negative) amounts
+	var counterNames []string
+	if callee != nil && !fc.Extern {
+		ctx.calleeCounts = map[string]string{}
+		for k := range fr.eng.countMemo[callee] {
+			counterNames = append(counterNames, k)
+		}
+		sort.Strings(counterNames)
+		for _, k := range counterNames {
+			d := fr.fresh(sInt, "ccount")
+			fr.emit("(assert (>= " + d + " 0))")
+			ctx.calleeCounts[k] = d
+		}
+	}
 	for _, en := range fc.Ensures {
 		fr.assume(st, fr.evalClause(ctx, en))
+	}
+	for _, k := range counterNames {
+		fr.touchCounter(k)
+		key := cellKey{0, k}
+		old, ok := st.cells[key]
+		if !ok {
+			old = Val{T: "0", S: sInt}
+		}
+		st.cells[key] = Val{T: fr.def(sInt, "(+ "+old.T+" "+ctx.calleeCounts[k]+")"), S: sInt}
+		fr.noteCellWrite(key)
+	}
+	if len(fc.Ensures) > 0 && fr.scout == 0 {
+		// vacuity guard: the assumed postcondition must leave the continuation reachable
+		base := "after:" + name
+		fr.names["cover:"+base]++
+		ob := &Obligation{Name: fmt.Sprintf("%s#cover:%s#%d", fr.fnName(), base, fr.names["cover:"+base]), Kind: "cover", Fn: fr.fnName(), Prefix: len(fr.lines), Reach: st.reach,
+			Cond: "false", PrePrefix: preLines, PreReach: preReach, Desc: "the postcondition assumed for " + name + " does not contradict the state at the call (vacuity guard)"}
+		if pos.IsValid() {
+			ob.Pos = fr.eng.prog.Fset.Position(pos)
+		}
+		fr.obls = append(fr.obls, ob)
 	}
 	if fc.Extern {
 		fr.assumed["assumed contract of external "+trimPath(fc.Name)+" (declared in "+shortFile(fc.File)+")"] = true
